@@ -1,4 +1,5 @@
 """C11 — a source is parsed in full or rejected."""
+import re
 from .. import hirlib as H
 from . import streamend
 
@@ -284,6 +285,49 @@ def run(ctx):
     check_eof_in_comment(ctx)
     check_skip_rules(ctx)
     check_depth_discipline(ctx)
+    check_source_readers(ctx)
     ctx.assume("LALRPOP-generated parsers accept only when the start symbol is followed by end of the token stream")
     ctx.assume("logos yields every byte of the input that no skip pattern matches either as a token or as an Err item")
     return {}
+
+
+# how the tools obtain the text of a source file: the whole file as UTF-8, or an error. Every other way of reading or decoding
+# bytes in the session / CLI / language-server crates is inventoried (what it reads is not a source file).
+READER_OK = {
+    ("zydeco_cli::native::BuildOptions::prepare", "read_dir"): "lists the runtime directory",
+    ("zydeco_cli::native::NativeTool::run", "from_utf8_lossy"): "the output of an external tool (nasm / cc), for an error message",
+    ("zydeco_tui::diagnostics::DiagnosticText::plain", "from_utf8_lossy"): "rendered diagnostic bytes",
+    ("zydeco_tui::engine::ReplEngine::run_dynamics", "from_utf8_lossy"): "captured program output",
+}
+
+
+def check_source_readers(ctx, rule="source-readers"):
+    facts = ctx.facts
+    ctx.rule(rule, "the tools (session, CLI, language server, TUI) obtain the text of a source file only with std::fs::read_to_string: the "
+                   "whole file, or an error (a file that is not valid UTF-8 is rejected). Reading bytes and decoding them by hand "
+                   "(fs::read, File::open, read_to_end, from_utf8, from_utf8_lossy, Utf8Error::valid_up_to) can hand the parser a PREFIX "
+                   "or a lossy copy of the file, which it then accepts in full: every such call is inventoried")
+    pat = re.compile(r"std::fs::(read|read_dir|read_link)$|std::fs::File::open$|std::fs::OpenOptions::open$|io::Read>::read_to_(string|end)$|"
+                     r"from_utf8(_lossy|_unchecked)?$|Utf8Error::valid_up_to$|FromUtf8Error::utf8_error$|std::io::read_to_string$")
+    n_ok = 0
+    readers = 0
+    for c in facts.calls():
+        fr = c["from"].split("::{closure")[0]
+        if "::tests::" in fr or c["loc"][0].endswith("tests.rs"):
+            continue
+        if not c["loc"][0].startswith(("lang/session/", "cli/", "editor/", "tui/")):
+            continue
+        if c["to"].endswith("std::fs::read_to_string"):
+            readers += 1
+            continue
+        if not pat.search(c["to"]):
+            continue
+        api = c["to"].split("::")[-1]
+        if (fr, api) in READER_OK:
+            n_ok += 1
+            ctx.ok(rule, "%s:%s" % (fr.split("::")[-1], api), {"audited": READER_OK[(fr, api)]})
+            continue
+        ctx.violation(rule, "%s:%s" % (fr.split("::")[-1], api), "%s reads or decodes bytes with %s: a source file must reach the parser whole "
+                      "(std::fs::read_to_string) or be rejected; a hand-made decoder that stops at the first invalid byte makes the "
+                      "parser accept a prefix of the file" % (fr, c["to"]), c["loc"])
+    ctx.floor(rule, "read_to_string sites in the tools", readers, 3)
